@@ -1,6 +1,6 @@
 SPECIFICATION Spec
 CONSTANTS
-  NCalls = 24
+  NCalls = 25
   MaxLen = 4
 INVARIANT ModesRestored
 INVARIANT NoLeak
